@@ -64,6 +64,7 @@ def _deltas(kind, tier, seed):
     out.append(gen)
     if kind == "SE3":
         out.append([0.3, -0.2, 0.1, 0.3, -0.4, 0.0])  # rotational norm 0.5
+        out.append([0.0, 0.0, 0.0, 3e-3, -4e-3, 0.0])  # small-angle regime
         if tier == "thorough":
             out.append([0.0, 1.0, -2.0, 0.6, 0.0, 0.8])  # rotational norm exactly 1 (180 degrees)
             n = 1 - 1e-12
@@ -71,6 +72,8 @@ def _deltas(kind, tier, seed):
     if kind == "SE2":
         out.append([1.0, -2.0, 3.0])
         out.append([0.0, 0.0, A.PI])
+        out.append([0.5, 0.5, 10.0])  # more than one full turn
+        out.append([0.0, 0.0, -7.5])
     return out
 
 
